@@ -69,6 +69,7 @@ def generate(ctx):
     fsp = fd["fspans"][r]
     bad = bytearray(data)
     info = {"class": klass, "record": r}
+    fl = None
     if klass == "marker":
         if tape.boolean("marker.remove"):
             del bad[start]
@@ -92,9 +93,10 @@ def generate(ctx):
                 cands += [m.start(2) + j for j, ch in enumerate(m.group(2)) if ch.isdigit()]
         if not cands:
             klass = info["class"] = "nonnumeric"
-            fs_, fl = fsp["position"]
-            bad[fs_] = ord("x")
-            info.update({"field": "position", "offset": fs_, "char": "x"})
+            pos_start = fsp["position"][0]
+            bad[pos_start] = ord("x")
+            info.update({"field": "position", "offset": pos_start, "char": "x"})
+            fl = None       # the corruption is done: the character variant below is not applied on top
         else:
             off = fs_ + cands[tape.draw(len(cands), "info.digit")]
             bad[off] = ord("x")
